@@ -261,36 +261,40 @@ Proof.
   repeat (split; [congruence|]). eapply base_trans; eassumption.
 Qed.
 
-Inductive hmv : sconn -> sconn -> Prop :=
-| hm_same c c' : hsame c c' -> hmv c c'
-| hm_map c l : Forall2 tr (sc_strms c) l -> hmv c (upd_strms c l)
+(* strict = true: a stream whose header block is still open is only closed if the server reset it
+   (then closeStream keeps the carry) or if it has been answered (impossible: see P) *)
+Inductive hmv (strict : bool) : sconn -> sconn -> Prop :=
+| hm_same c c' : hsame c c' -> hmv strict c c'
+| hm_map c l : Forall2 tr (sc_strms c) l -> hmv strict c (upd_strms c l)
 | hm_close c s x : strms_search (sc_strms c) (st_id x) = Some s -> tr s x ->
-    (st_headersFinished x = false -> st_weReset x = true) -> hmv c (close_stream c x)
-| hm_mark c id w : id <= sc_highestID c -> hmv c (mark_closed c id w)
-| hm_highest c sid : sc_highestID c < sid -> hmv c (upd_highestID c sid)
-| hm_goaway c sid code : hmv c (write_goaway c sid code)
-| hm_brk c : sc_closing c = true -> hmv c (fst (brk c))
+    (strict = true -> st_headersFinished x = false -> st_weReset x = true \/ st_responded x = true) ->
+    hmv strict c (close_stream c x)
+| hm_mark c id w : id <= sc_highestID c -> hmv strict c (mark_closed c id w)
+| hm_highest c sid : sc_highestID c < sid -> hmv strict c (upd_highestID c sid)
+| hm_goaway c sid code : hmv strict c (write_goaway c sid code)
+| hm_brk c : sc_closing c = true -> hmv strict c (fst (brk c))
+| hm_panic c : hmv strict c (fst (brk (note c (OPanic 1 0))))
 | hm_fatal c c' : sc_dec c' = sc_dec c -> base c c' -> sc_sl_done c' = true -> closing_eff c c' ->
-    (sc_wl_dead c = false -> (gcount (sc_out c) < gcount (sc_out c'))%nat) -> hmv c c'.
+    (sc_wl_dead c = false -> (gcount (sc_out c) < gcount (sc_out c'))%nat) -> hmv strict c c'.
 
-Inductive hmvs : sconn -> sconn -> Prop :=
-| hms_nil c : hmvs c c
-| hms_cons a b c : hmv a b -> hmvs b c -> hmvs a c.
+Inductive hmvs (strict : bool) : sconn -> sconn -> Prop :=
+| hms_nil c : hmvs strict c c
+| hms_cons a b c : hmv strict a b -> hmvs strict b c -> hmvs strict a c.
 
-Lemma hmvs_one a b : hmv a b -> hmvs a b.
+Lemma hmvs_one k a b : hmv k a b -> hmvs k a b.
 Proof. intro H. econstructor; [eassumption | constructor]. Qed.
-Lemma hmvs_trans a b c : hmvs a b -> hmvs b c -> hmvs a c.
+Lemma hmvs_trans k a b c : hmvs k a b -> hmvs k b c -> hmvs k a c.
 Proof. induction 1; intro H2; [assumption|]. econstructor; [eassumption | auto]. Qed.
-Lemma hmvs_same a b : hsame a b -> hmvs a b.
+Lemma hmvs_same k a b : hsame a b -> hmvs k a b.
 Proof. intro H. apply hmvs_one, hm_same, H. Qed.
 
-Lemma hmvs_ind_rel (R : sconn -> sconn -> Prop) :
-  (forall a, R a a) -> (forall a b c, R a b -> R b c -> R a c) -> (forall a b, hmv a b -> R a b) ->
-  forall a b, hmvs a b -> R a b.
+Lemma hmvs_ind_rel k (R : sconn -> sconn -> Prop) :
+  (forall a, R a a) -> (forall a b c, R a b -> R b c -> R a c) -> (forall a b, hmv k a b -> R a b) ->
+  forall a b, hmvs k a b -> R a b.
 Proof. intros Hr Ht Hm a b M. induction M; eauto. Qed.
 
 (* put = map *)
-Lemma hmv_put c s x : strms_search (sc_strms c) (st_id x) = Some s -> tr s x -> hmv c (put c x).
+Lemma hmv_put k c s x : strms_search (sc_strms c) (st_id x) = Some s -> tr s x -> hmv k c (put c x).
 Proof. intros H T. unfold put. apply hm_map. eapply put_tr; eassumption. Qed.
 
 (* ---------- what the moves keep ---------- *)
@@ -320,7 +324,7 @@ Qed.
 Lemma base_brk c : base c (fst (brk c)).
 Proof. unfold brk. cbn [fst]. eapply base_trans; [|apply base_note]. apply base_same_out; reflexivity. Qed.
 
-Lemma hmv_base a b : hmv a b -> base a b.
+Lemma hmv_base k a b : hmv k a b -> base a b.
 Proof.
   intros []; auto.
   - unfold hsame in *. tauto.
@@ -331,12 +335,12 @@ Proof.
   - apply base_write_goaway.
   - apply base_brk.
 Qed.
-Lemma hmvs_base a b : hmvs a b -> base a b.
+Lemma hmvs_base k a b : hmvs k a b -> base a b.
 Proof. apply hmvs_ind_rel; auto using base_refl, hmv_base. intros; eapply base_trans; eassumption. Qed.
 
-Lemma hmv_dec a b : hmv a b -> sc_dec b = sc_dec a.
+Lemma hmv_dec k a b : hmv k a b -> sc_dec b = sc_dec a.
 Proof. intros []; sc_rw; auto. unfold hsame in *. tauto. Qed.
-Lemma hmvs_dec a b : hmvs a b -> sc_dec b = sc_dec a.
+Lemma hmvs_dec k a b : hmvs k a b -> sc_dec b = sc_dec a.
 Proof. apply (hmvs_ind_rel (fun a b => sc_dec b = sc_dec a)); auto using hmv_dec. intros; congruence. Qed.
 
 Lemma gcount_write_goaway c sid code : sc_wl_dead c = false ->
@@ -357,7 +361,7 @@ Proof.
   - right. split; [assumption|]. intro W. destruct B2 as (O2 & _). apply oext_gcount in O2. specialize (G1 W). lia.
 Qed.
 
-Lemma hmv_closing a b : hmv a b -> closing_eff a b.
+Lemma hmv_closing k a b : hmv k a b -> closing_eff a b.
 Proof.
   intros []; auto.
   - left. unfold hsame in *. tauto.
@@ -368,13 +372,13 @@ Proof.
   - right. split; [apply sc_closing_write_goaway | apply gcount_write_goaway].
   - left. split; reflexivity.
 Qed.
-Lemma hmvs_closing a b : hmvs a b -> closing_eff a b.
+Lemma hmvs_closing k a b : hmvs k a b -> closing_eff a b.
 Proof.
   induction 1 as [|a b c M MS IH]; [apply closing_eff_refl|].
   eapply closing_eff_trans; [apply hmv_base; eassumption | apply hmvs_base; eassumption | apply hmv_closing; assumption | assumption].
 Qed.
 
-Lemma hmv_done a b : hmv a b -> done_eff a b.
+Lemma hmv_done k a b : hmv k a b -> done_eff a b.
 Proof.
   intros []; try (left; sc_rw; reflexivity).
   - left. unfold hsame in *. tauto.
@@ -383,7 +387,7 @@ Proof.
 Qed.
 
 (* closing, once set, stays; so "was closing at some point of the step" is "is closing or a GOAWAY went out" *)
-Lemma hmvs_done a b : hmvs a b ->
+Lemma hmvs_done k a b : hmvs k a b ->
   sc_sl_done b = sc_sl_done a \/
   (sc_sl_done b = true /\ (sc_closing a = true \/ (sc_wl_dead a = false -> (gcount (sc_out a) < gcount (sc_out b))%nat))).
 Proof.
@@ -433,7 +437,7 @@ Proof.
     destruct (st_handlerRunning x); unfold release_stream, note; sc_split_ifs; sc_cbn; sc_rw; reflexivity.
 Qed.
 
-Lemma hmv_HInv idp a b : hmv a b -> HInv idp a -> sc_sl_done b = false -> HInv idp b.
+Lemma hmv_HInv k idp a b : hmv k a b -> HInv idp a -> sc_sl_done b = false -> HInv idp b.
 Proof.
   intros M H Hd. destruct M as [c c' S|c l F|c s x SS T W|c id w Hid|c sid Hs|c sid code|c Hc|c c' _ _ D _ _].
   - unfold hsame in S. destruct S as (_ & E1 & _ & _ & E2 & E3 & E4 & E5 & _). destruct H.
@@ -465,15 +469,15 @@ Proof.
   - congruence.
 Qed.
 
-Lemma hmv_sl_done_mono a b : hmv a b -> sc_sl_done a = true -> sc_sl_done b = true.
+Lemma hmv_sl_done_mono k a b : hmv k a b -> sc_sl_done a = true -> sc_sl_done b = true.
 Proof.
   intros M Hd. destruct M; sc_rw; auto.
   unfold hsame in *. intuition congruence.
 Qed.
-Lemma hmvs_sl_done_mono a b : hmvs a b -> sc_sl_done a = true -> sc_sl_done b = true.
+Lemma hmvs_sl_done_mono k a b : hmvs k a b -> sc_sl_done a = true -> sc_sl_done b = true.
 Proof. induction 1; eauto using hmv_sl_done_mono. Qed.
 
-Lemma hmvs_HInv idp a b : hmvs a b -> HInv idp a -> sc_sl_done b = false -> HInv idp b.
+Lemma hmvs_HInv k idp a b : hmvs k a b -> HInv idp a -> sc_sl_done b = false -> HInv idp b.
 Proof.
   induction 1 as [|a b c M MS IH]; intros H Hd; [assumption|].
   apply IH; [|assumption]. eapply hmv_HInv; [eassumption | assumption|].
@@ -481,7 +485,7 @@ Proof.
 Qed.
 
 (* the carry of the block in progress stays where the next CONTINUATION will look for it *)
-Lemma hmv_carry cur a b v : hmv a b -> HInv (eq cur) a -> sc_sl_done b = false ->
+Lemma hmv_carry cur a b v : hmv true a b -> HInv (eq cur) a -> sc_sl_done b = false ->
   carry_at a cur = Some v -> carry_at b cur = Some v.
 Proof.
   intros M H Hd. destruct M as [c c' S|c l F|c s x SS T W|c id w Hid|c sid Hs|c sid code|c Hc|c c' _ _ D _ _];
@@ -512,11 +516,10 @@ Proof.
         -- exfalso. apply andb_prop in Fire. destruct Fire as [Fire F3]. apply andb_prop in Fire. destruct Fire as [_ F2].
            destruct Px as (_ & _ & _ & P4). apply negb_true_iff in F2. specialize (P4 F2). congruence.
         -- inversion CD as [[E1 E2 E3]]. rewrite E1, Ed. rewrite iso_search_del_other by congruence. rewrite S0, H0. assumption.
-  - cbn in Hd. discriminate.
   - congruence.
 Qed.
 
-Lemma hmvs_carry cur a b v : hmvs a b -> HInv (eq cur) a -> sc_sl_done b = false ->
+Lemma hmvs_carry cur a b v : hmvs true a b -> HInv (eq cur) a -> sc_sl_done b = false ->
   carry_at a cur = Some v -> carry_at b cur = Some v.
 Proof.
   induction 1 as [|a b c M MS IH]; intros H Hd V; [assumption|].
